@@ -82,10 +82,10 @@ CLAIMED = {
             "lock scopes are generated facts. Real threads are co-simulated with the model on identical schedules (all schedules of length 9/11 "
             "for 2 threads, 6/8 for 3). Receivers: small-step model of concurrent recv() calls (C12_receivers: each message intact, in order, to exactly one call, every schedule); C12_programs: threads with whole programs of sends (a receiver answering pings is one of them); mixed real runs are replayed on the programs model.",
             "Lock acquire/release atomic; bytecode-level races inside a line not modelled.", "DESIGN.md §6 C12"),
-    "C13": ("Lean 4 theorems C13_trace (callback trace = Spec trace for all legal histories, callback subsets, raising callbacks, plain/TLS), C13_open_first, C13_prompt" + T_CORR + " under a virtual-time baton scheduler (harness/simsched.py)",
+    "C13": ("Lean 4 theorems C13_trace (callback trace = Spec trace for all legal histories, callback subsets, raising callbacks, plain/TLS), C13_open_first, C13_prompt, C13b.C13_keepalive_transparent (keepalive without a ping timeout changes nothing but its own events: projection commuting with every function of the model), C13b.C13_trace_keepalive" + T_CORR + " under a virtual-time baton scheduler (harness/simsched.py)",
             "Proof over the App model (run_forever, both built-in dispatchers, callbacks, close handshake): the ordered callback trace with "
             "ticks equals the Spec's for every history/gap/burst, every subset of callbacks and every raising plan; select returns at once when "
-            "the next event has arrived. C13_trace/C13_open_first assume keepalive and reconnect off (those are C15/C16). The real "
+            "the next event has arrived. C13_trace/C13_open_first assume keepalive and reconnect off; C13_trace_keepalive lifts C13_trace to any ping interval without a ping timeout. The real "
             "run_forever runs under the scheduler on the same world/plan/schedule; traces must be identical; Spec predicates judge the real trace.",
             "The app consumes already-parsed events (byte level = C02-C07 layer); kernel/SSL buffering as simulated.", "DESIGN.md §6 C13"),
     "C14": ("Lean 4 theorems C14_once_last, C14_return_value, C14_clean, C14_rerun (all worlds/plans/schedules), C14_terminates, C14_close_args (one connection), C14_closing_is_not_an_error, C14b.C14_close_in_open_clean, C14_rerun_settings" + T_CORR + " incl. second-thread close at every executed line",
